@@ -64,7 +64,7 @@ struct FUnifRoots
    */
     static FReal L(const unsigned int n, FReal x)
     {
-        assert(std::fabs(x)-1.<10.*std::numeric_limits<FReal>::epsilon());
+        assert(std::fabs(x)-1.<std::sqrt(std::numeric_limits<FReal>::epsilon()));
         if (std::fabs(x)>1.) {
             //std::cout << "x=" << x << " out of bounds!" << std::endl;
             x = (x > FReal( 1.) ? FReal( 1.) : x);
@@ -110,7 +110,7 @@ struct FUnifRoots
    */
     static FReal dL(const unsigned int n, FReal x)
     {
-        assert(std::fabs(x)-1.<10.*std::numeric_limits<FReal>::epsilon());
+        assert(std::fabs(x)-1.<std::sqrt(std::numeric_limits<FReal>::epsilon()));
         if (std::fabs(x)>1.) {
             x = (x > FReal( 1.) ? FReal( 1.) : x);
             x = (x < FReal(-1.) ? FReal(-1.) : x);
